@@ -11,7 +11,7 @@ PROP = 'C06'
 MODULE = 'WaveletsVerif.Properties.C06'
 THEOREMS = ['WV.C06.q2c_c2q_adjoint', 'WV.C06.FWD_J1_backward_def', 'WV.C06.FWD_J2PLUS_backward_def', 'WV.C06.colfilter_self_adjoint', 'WV.C06.Kf_symm', 'WV.C06.alongH_self_adjoint', 'WV.C06.fwdJ1_backward_adjoint_rect', 'WV.C06.fwdJ1_backward_adjoint', 'WV.C06.INV_J1_backward_adjoint',
             'WV.C06Q.transpose_tap', 'WV.C06Q.lineD_taps', 'WV.C06Q.lineE_taps', 'WV.C06Q.line_transpose', 'WV.C06Q.coldfilt_colifilt_adjoint',
-            'WV.C06J.loop_adjoint', 'WV.C06J.DTCWT_backward_adjoint', 'WV.C06K.invLoop_adjoint', 'WV.C06K.DTCWTInverse_backward_adjoint', 'WV.C06Q.fwdJ2_backward_adjoint_rect', 'WV.C06Q.fwdJ2_backward_adjoint', 'WV.C06Q.INV_J2PLUS_backward_adjoint', 'WV.C06L.gather2_adjoint', 'WV.C06L.extendMult4_get2', 'WV.C06L.extendEven_get2', 'WV.C06L.ext4_adjoint', 'WV.C06L.ext2_adjoint', 'WV.C06L.loop_adjoint_ext', 'WV.C06L.DTCWT_backward_adjoint_ext']
+            'WV.C06J.loop_adjoint', 'WV.C06J.DTCWT_backward_adjoint', 'WV.C06K.invLoop_adjoint', 'WV.C06K.DTCWTInverse_backward_adjoint', 'WV.C06Q.fwdJ2_backward_adjoint_rect', 'WV.C06Q.fwdJ2_backward_adjoint', 'WV.C06Q.INV_J2PLUS_backward_adjoint', 'WV.C06L.gather2_adjoint', 'WV.C06L.extendMult4_get2', 'WV.C06L.extendEven_get2', 'WV.C06L.ext4_adjoint', 'WV.C06L.ext2_adjoint', 'WV.C06L.loop_adjoint_ext', 'WV.C06L.DTCWT_backward_adjoint_ext', 'WV.C06M.cropToHighs_get2', 'WV.C06M.crop_adjoint', 'WV.C06M.invLoop_adjoint_ext', 'WV.C06M.DTCWTInverse_backward_adjoint_ext']
 OPS = ['FWD_J1_bwd', 'FWD_J2PLUS_bwd', 'INV_J1_bwd', 'INV_J2PLUS_bwd', 'fwd_j1', 'inv_j1', 'fwd_j2plus', 'inv_j2plus']
 
 
